@@ -229,14 +229,15 @@ pub fn run(rep: &mut Report) {
     // every gate kind x every argument tuple x every phase k/d, d <= 16
     let t0 = Instant::now();
     let mut singles: Vec<Circuit> = vec![];
-    for q in 1..=3usize {
+    let (qmax, dmax) = if quick { (3usize, 16i64) } else { (4, 128) };
+    for q in 1..=qmax {
         for (t, ar, has_phase) in kinds() {
             if ar > q {
                 continue;
             }
             for qs in tuples(q, ar) {
                 if has_phase {
-                    for d in 1..=16i64 {
+                    for d in 1..=dmax {
                         for k in (-d + 1)..=d {
                             if num::integer::gcd(k, d) != 1 && !(k == 0 && d == 1) {
                                 continue;
@@ -263,9 +264,9 @@ pub fn run(rep: &mut Report) {
         roundtrip(st, c, cls);
         st.sample(1, || json!({"qasm": c.to_qasm()}));
     });
-    rep.absorb("single gates", "every gate kind of the property's list x every ordered tuple of distinct qubits on 1..3 qubits x every reduced phase k/d with d <= 16 (rz, rx); zero-gate circuits on 1..3 qubits", true, None, t0, stats);
+    rep.absorb("single gates", &format!("every gate kind of the property's list x every ordered tuple of distinct qubits on 1..{} qubits x every reduced phase k/d with d <= {} (rz, rx); zero-gate circuits on 1..3 qubits", qmax, dmax), true, None, t0, stats);
     // sequences
-    for (q, d) in if quick { vec![(2usize, 2usize)] } else { vec![(2, 3), (3, 2)] } {
+    for (q, d) in if quick { vec![(2usize, 3usize), (3, 2)] } else { vec![(2, 4), (3, 3), (4, 2)] } {
         let t0 = Instant::now();
         let mut alpha: Vec<Gate> = alpha_full(q).into_iter().filter(|g| g.t != ParityPhase).collect();
         alpha.push(gp(ZPhase, vec![0], (5, 16)));
